@@ -27,6 +27,9 @@ pub struct FaultCfg {
   pub max_interrupts: u32,
 }
 
+/// sysread_fault call numbers from here on mean: only that one call fails (n - SYSREAD_ONCE)
+pub const SYSREAD_ONCE: usize = 1 << 20;
+
 #[derive(Clone, Debug)]
 pub struct CaseB {
   pub layout: Layout,
@@ -172,7 +175,7 @@ pub struct SimStats {
   pub order_flipped: u64, pub both_devices_ready: u64, pub kbd_unplugged: u64, pub tab_unplugged: u64, pub arrival_during_drain: u64,
   pub backoff_sleeps: u64, pub multi_event_wakeups: u64, pub max_events_one_wakeup: u64, pub timer_ticks: u64, pub trace_cap_hit: u64,
   pub os_write_fault: [u64; 3], pub os_read_fault: u64, pub real_polls_compared: u64,
-  pub os_poll_fault: [u64; 3], pub os_sysread_fault: u64, pub zero_timeout_looks: u64, pub sys_extra_devices_listed: u64, pub os_syswrite_fault: [u64; 4], pub syswrite_partial_frames: u64, pub syswrite_retried_ok: u64, pub sys_writes: u64, pub sys_reads_kbd: u64, pub sys_reads_tab: u64, pub sys_waits: u64, pub sys_wait_timeouts: u64, pub sys_wait_eintr: u64, pub sys_wait_events: u64, pub sys_stale_dropped: u64, pub sys_fabricated_ready: u64, pub sys_polls_through_real_driver: u64, pub sys_subms_truncated: u64,
+  pub os_poll_fault: [u64; 3], pub os_sysread_fault: u64, pub os_sysread_once: u64, pub zero_timeout_looks: u64, pub sys_extra_devices_listed: u64, pub os_syswrite_fault: [u64; 4], pub syswrite_partial_frames: u64, pub syswrite_retried_ok: u64, pub sys_writes: u64, pub sys_reads_kbd: u64, pub sys_reads_tab: u64, pub sys_waits: u64, pub sys_wait_timeouts: u64, pub sys_wait_eintr: u64, pub sys_wait_events: u64, pub sys_stale_dropped: u64, pub sys_fabricated_ready: u64, pub sys_polls_through_real_driver: u64, pub sys_subms_truncated: u64,
 }
 
 pub trait ByteLayer {
@@ -246,6 +249,10 @@ pub struct Sim<'a> {
   sends_done: usize,
   hw_failed: bool,
   kbd_sabotaged: bool,
+  /// a transient read(2) failure happened and has not been reported yet: how many of the events
+  /// waiting in the device queue may still be handed out before the driver owes the error
+  once_owed: Option<usize>,
+  once_done: bool,
   kbd_hup_checked: bool, tab_hup_checked: bool,
   tab_sabotaged: bool,
   pub stats: SimStats,
@@ -274,7 +281,7 @@ impl<'a> Sim<'a> {
     reset_sim_slept_us();
     Sim { tape, cfg: case.cfg.clone(), kbd: case.kbd.iter().cloned().collect(), tab: if case.has_tablet { case.tab.iter().cloned().collect() } else { VecDeque::new() }, has_tablet: case.has_tablet,
       kbd_ready: VecDeque::new(), tab_ready: VecDeque::new(), kbd_notify: false, tab_notify: false, trace: vec![], fail_at: case.fail_at, calls: 0,
-      kbd_ended: false, tab_ended: false, kbd_end_at: case.kbd_end_at, tab_end_at: if case.has_tablet { case.tab_end_at } else { None }, extra_ticks: case.extra_ticks, interrupts: 0, in_drain: false, write_fault: if case.hybrid { case.write_fault } else { None }, read_fault: if case.hybrid { case.read_fault } else { None }, kbd_reads_done: 0, tab_reads_done: 0, sends_done: 0, hw_failed: false, kbd_sabotaged: false, tab_sabotaged: false, kbd_hup_checked: false, tab_hup_checked: false,
+      kbd_ended: false, tab_ended: false, kbd_end_at: case.kbd_end_at, tab_end_at: if case.has_tablet { case.tab_end_at } else { None }, extra_ticks: case.extra_ticks, interrupts: 0, in_drain: false, write_fault: if case.hybrid { case.write_fault } else { None }, read_fault: if case.hybrid { case.read_fault } else { None }, kbd_reads_done: 0, tab_reads_done: 0, sends_done: 0, hw_failed: false, kbd_sabotaged: false, once_owed: None, once_done: false, tab_sabotaged: false, kbd_hup_checked: false, tab_hup_checked: false,
       stats: SimStats::default(), bytes, byte_error: None, byte_notes: vec![],
       // runaway guard; scaled for marathon scripts
       cap: TRACE_CAP.max(10 * (case.kbd.len() + case.tab.len()) + 1000),
@@ -524,15 +531,29 @@ impl<'a> Sim<'a> {
     if dry_and_gone { self.bytes.as_mut().unwrap().unplug(false); self.stats.os_enodev += 1; }
     let r = self.bytes.as_mut().unwrap().raw_next_keyboard();
     if let Some((_, false)) = self.sysread_fault {
-      if !self.kbd_sabotaged && crate::sysseam::watch_fired(self.bytes.as_ref().unwrap().device_fds().0) {
+      if !self.kbd_sabotaged && !self.once_done && crate::sysseam::watch_fired(self.bytes.as_ref().unwrap().device_fds().0) {
         // a read(2) failed somewhere inside this call; the descriptor is dead from here on. Records the
         // reader had already pulled out may still be handed out; then the failure must be reported
         self.kbd_sabotaged = true; self.stats.os_sysread_fault += 1; self.stats.io_error += 1;
+        let once = self.sysread_fault.map(|(n, _)| n >= SYSREAD_ONCE).unwrap_or(false);
+        if once { self.kbd_sabotaged = false; self.once_done = true; self.stats.os_sysread_once += 1; }
         return match r {
-          Err(e) => { self.hw_failed = true; self.trace.push(Item::Fail { what: "next_keyboard (read(2) failure under the real driver)" }); Err(format!("{}: {}", INJECTED, e)) }
-          Ok(VNext::One(e)) if self.kbd_ready.front() == Some(&e) => { self.kbd_ready.pop_front(); self.trace.push(Item::NextK { res: Some(e.clone()), end: false, t_out: self.now(), phantom: false }); Ok(VNext::One(e)) }
+          Err(e) => { self.hw_failed = true; self.once_done = true; self.trace.push(Item::Fail { what: "next_keyboard (read(2) failure under the real driver)" }); Err(format!("{}: {}", INJECTED, e)) }
+          Ok(VNext::One(e)) if self.kbd_ready.front() == Some(&e) => {
+            self.kbd_ready.pop_front();
+            // a transient failure: the reader may still hand out what it had pulled out of the queue
+            // before the call that failed (at most what was waiting there); after that it owes the error
+            if once { self.once_owed = Some(self.kbd_ready.len()); }
+            self.trace.push(Item::NextK { res: Some(e.clone()), end: false, t_out: self.now(), phantom: false }); Ok(VNext::One(e)) }
           Ok(other) => { self.hw_failed = true; self.trace.push(Item::Fail { what: "next_keyboard (read(2) failure hidden by the driver)" }); Ok(other) }
         };
+      }
+    }
+    if let (Some(allow), Some((_, false))) = (self.once_owed, self.sysread_fault) {
+      match &r {
+        Err(e) => { self.once_owed = None; self.hw_failed = true; self.trace.push(Item::Fail { what: "next_keyboard (read(2) failure under the real driver, reported after the records read before it)" }); return Err(format!("{}: {}", INJECTED, e)); }
+        Ok(VNext::One(e)) if allow > 0 && self.kbd_ready.front() == Some(e) => { self.once_owed = Some(allow - 1); }
+        Ok(_) => { self.once_owed = None; self.hw_failed = true; self.trace.push(Item::Fail { what: "next_keyboard (a read(2) failure was never reported by the driver)" }); }
       }
     }
     match r {
@@ -576,13 +597,22 @@ impl<'a> Sim<'a> {
     if dry_and_gone { self.bytes.as_mut().unwrap().unplug(true); self.stats.os_enodev += 1; }
     let r = self.bytes.as_mut().unwrap().raw_next_tablet();
     if let Some((_, true)) = self.sysread_fault {
-      if !self.tab_sabotaged && crate::sysseam::watch_fired(self.bytes.as_ref().unwrap().device_fds().1) {
+      if !self.tab_sabotaged && !self.once_done && crate::sysseam::watch_fired(self.bytes.as_ref().unwrap().device_fds().1) {
         self.tab_sabotaged = true; self.stats.os_sysread_fault += 1; self.stats.io_error += 1;
+        let once = self.sysread_fault.map(|(n, _)| n >= SYSREAD_ONCE).unwrap_or(false);
+        if once { self.tab_sabotaged = false; self.once_done = true; self.stats.os_sysread_once += 1; }
         return match r {
-          Err(e) => { self.hw_failed = true; self.trace.push(Item::Fail { what: "next_tablet (read(2) failure under the real driver)" }); Err(format!("{}: {}", INJECTED, e)) }
-          Ok(VNext::One(on)) if self.tab_ready.front() == Some(&on) => { self.tab_ready.pop_front(); self.trace.push(Item::NextT { res: Some(on), end: false, t_out: self.now(), phantom: false }); Ok(VNext::One(on)) }
+          Err(e) => { self.hw_failed = true; self.once_done = true; self.trace.push(Item::Fail { what: "next_tablet (read(2) failure under the real driver)" }); Err(format!("{}: {}", INJECTED, e)) }
+          Ok(VNext::One(on)) if self.tab_ready.front() == Some(&on) => { self.tab_ready.pop_front(); if once { self.once_owed = Some(self.tab_ready.len()); } self.trace.push(Item::NextT { res: Some(on), end: false, t_out: self.now(), phantom: false }); Ok(VNext::One(on)) }
           Ok(other) => { self.hw_failed = true; self.trace.push(Item::Fail { what: "next_tablet (read(2) failure hidden by the driver)" }); Ok(other) }
         };
+      }
+    }
+    if let (Some(allow), Some((_, true))) = (self.once_owed, self.sysread_fault) {
+      match &r {
+        Err(e) => { self.once_owed = None; self.hw_failed = true; self.trace.push(Item::Fail { what: "next_tablet (read(2) failure under the real driver, reported after the records read before it)" }); return Err(format!("{}: {}", INJECTED, e)); }
+        Ok(VNext::One(on)) if allow > 0 && self.tab_ready.front() == Some(on) => { self.once_owed = Some(allow - 1); }
+        Ok(_) => { self.once_owed = None; self.hw_failed = true; self.trace.push(Item::Fail { what: "next_tablet (a read(2) failure was never reported by the driver)" }); }
       }
     }
     match r {
@@ -691,7 +721,11 @@ impl<'a> Sim<'a> {
 
 impl<'a> VerifDriver for Sim<'a> {
   fn register_poll(&mut self) -> Result<(), String> {
-    if let (Some((n, tablet)), Some(b)) = (self.sysread_fault, self.bytes.as_ref()) { let (k, t) = b.device_fds(); crate::sysseam::fail_reads_from_call(if tablet { t } else { k }, n as u32, libc::EIO); }
+    if let (Some((n, tablet)), Some(b)) = (self.sysread_fault, self.bytes.as_ref()) {
+      let (k, t) = b.device_fds();
+      if n >= SYSREAD_ONCE { crate::sysseam::fail_read_call_once(if tablet { t } else { k }, (n - SYSREAD_ONCE) as u32, libc::EIO); }
+      else { crate::sysseam::fail_reads_from_call(if tablet { t } else { k }, n as u32, libc::EIO); }
+    }
     if let (Some((from, count, kind)), Some(b)) = (self.syswrite_fault, self.bytes.as_ref()) { crate::sysseam::fail_writes(b.uinput_fd(), from as u32, if count == 0 { u32::MAX } else { count }, [libc::EAGAIN, libc::EIO, libc::ENOSPC, libc::EINTR][(kind % 4) as usize]);
       if let (Some(bytes), true) = (self.syswrite_short, from > 0) { crate::sysseam::short_write(b.uinput_fd(), from as u32 - 1, bytes); } }
     self.maybe_fail("register_poll")?;
